@@ -423,6 +423,10 @@ func StaticFn(c ssa.CallInstruction) *ssa.Function {
 }
 
 func bodyOf(f *ssa.Function) *ssa.Function {
+	// structural analyses work on the generic origin (instantiation wrappers only forward to it)
+	if o := f.Origin(); o != nil && len(o.Blocks) > 0 {
+		return o
+	}
 	if len(f.Blocks) > 0 {
 		return f
 	}
